@@ -215,7 +215,7 @@ func libCheck(path string, ro bool) (n int, openFailed bool) {
 func cliCheck(path string) (exit int, out string) {
 	cli := os.Getenv("VERIF_CLI")
 	if cli == "" {
-		cli = "/verif/build/bbolt"
+		cli = verifRoot() + "/build/bbolt"
 	}
 	cmd := exec.Command(cli, "check", path)
 	b, err := cmd.CombinedOutput()
